@@ -63,6 +63,7 @@ type PMsg struct {
 	TV    int64  `json:"tv"`
 	Junk  int64  `json:"junk,omitempty"` // garbage the caller puts into Message.Offset
 	Pad   int64  `json:"pad,omitempty"`  // the value is Val followed by Pad zero bytes (messages beyond the 64 MiB the writers accept)
+	KPad  int64  `json:"kpad,omitempty"` // the key is Key followed by KPad zero bytes
 }
 
 type OffSel struct {
